@@ -192,7 +192,8 @@ def c06(chk, g):
         raise AnalysisBroken("only %d successful abstract paths in the crypt grid" % n)
     missing = {b for b in {m_["base"] for m_ in g["meta"].values() if m_["row"] is not None and m_["base"] != "Kempty"} if b not in shape_seen}
     if missing:
-        raise AnalysisBroken("no documented shape for grid method(s) %s" % sorted(missing))
+        # (deferred: when the shape could not be looked at because the result is not even terminated, X-LEN has already fired)
+        chk.deferred.append("no documented shape evaluated for grid method(s) %s" % sorted(missing))
 
 
 def shape(chk, mt, p, ln, d, cid, seen):
